@@ -29,6 +29,15 @@ var c10Alphabet = []argTok{
 	{`"hi"`, "S_Text_0", 4}, {"moves(u d)", "S_Movement_0", 4},
 	// the same text written in two parts with a run of comment lines between them (one literal, one label)
 	{"\"h\" // c1\n\t\t# c2\n\t\t// c3\n\t\t\"i\"", "S_Text_0", 4},
+	// a typed text whose content ends in a character of its terminator
+	{`ascii"h0"`, "S_Text_0", 4},
+}
+
+// c10TextBlocks: the hoisted block of each text token (X = the label number expected in the context).
+var c10TextBlocks = map[string]string{
+	`"hi"`: "S_Text_X:\n\t.string \"hi$\"",
+	"\"h\" // c1\n\t\t# c2\n\t\t// c3\n\t\t\"i\"": "S_Text_X:\n\t.string \"h\"\n\t.string \"i$\"",
+	`ascii"h0"`: "S_Text_X:\n\t.ascii \"h0\\0\"",
 }
 
 var c10Names = []string{"foo", "é_cmd", "iff", "endx", "msgbox", "END", "Return", "RETURN", "End", "Goto", "CALL"} // incl. case variants of the names the compiler itself treats specially
@@ -47,17 +56,13 @@ var c10Cmd = func() parser.CommandConfig {
 const c10Contexts = 12
 
 func c10Valid(seq []argTok) bool {
-	plainText, partText := false, false
+	texts := map[string]bool{}
 	for _, t := range seq {
 		if t.kind == 4 && t.out == "S_Text_0" {
-			if strings.Contains(t.src, "//") {
-				partText = true
-			} else {
-				plainText = true
-			}
+			texts[t.src] = true
 		}
 	}
-	if plainText && partText {
+	if len(texts) > 1 {
 		return false // two different texts in one command: their numbering is C06's business
 	}
 	depth := 0
@@ -167,9 +172,7 @@ func runC10(tier string) int {
 				switch {
 				case seq[i].kind == 4 && seq[i].out == "S_Text_0":
 					hasText = true
-					if strings.Contains(seq[i].src, "//") {
-						textBlock = "S_Text_X:\n\t.string \"h\"\n\t.string \"i$\""
-					}
+					textBlock = c10TextBlocks[seq[i].src]
 				case seq[i].kind == 4:
 					hasMoves = true
 				case seq[i].kind == 1:
@@ -410,5 +413,5 @@ func runC10(tier string) int {
 	r.Assume("expected line = name, then the source tokens joined by single spaces with no space before a comma; constants replaced by their value; an inline text / moves() that is a whole argument replaced by its label",
 		"no empty arguments, inline data only as whole arguments, parentheses balanced to depth 2 (the property's domain)")
 	return r.Finish(r.Get("evaluations"), r.Get("nontrivial"),
-		"every argument token sequence of length <= L over a 25-token alphabet (a two-part text with a run of comment lines between the parts, identifiers incl. multi-byte, keywords, decimal/negative/hex numbers, operators, an illegal character, parentheses, comma, two constants, inline text, moves()) that is in the domain, with 11 command names incl. case variants of end / return / goto / call (all names for <= 1 token, rotating beyond), in 12 contexts (as an AutoVar command in the middle of a condition, after a command whose inline data are spelled like this command's data joined / typed, alone, middle of a stretch, twice in a row, all on one line, inside an if body, inside a poryswitch case selected through _ / directly, last command of an if body / loop body / switch case); plus every identifier-like literal of the compiler's own source as command name and as argument in 3 contexts; plus commands with K arguments and stretches of K commands for every K up to the bound in the coverage; the whole emitted file is compared byte for byte with the generator's expectation; non-trivial = >= 2 arguments and nested parentheses")
+		"every argument token sequence of length <= L over a 26-token alphabet (a two-part text with a run of comment lines between the parts, an ascii text ending in 0, identifiers incl. multi-byte, keywords, decimal/negative/hex numbers, operators, an illegal character, parentheses, comma, two constants, inline text, moves()) that is in the domain, with 11 command names incl. case variants of end / return / goto / call (all names for <= 1 token, rotating beyond), in 12 contexts (as an AutoVar command in the middle of a condition, after a command whose inline data are spelled like this command's data joined / typed, alone, middle of a stretch, twice in a row, all on one line, inside an if body, inside a poryswitch case selected through _ / directly, last command of an if body / loop body / switch case); plus every identifier-like literal of the compiler's own source as command name and as argument in 3 contexts; plus commands with K arguments and stretches of K commands for every K up to the bound in the coverage; the whole emitted file is compared byte for byte with the generator's expectation; non-trivial = >= 2 arguments and nested parentheses")
 }
